@@ -3,6 +3,7 @@ from __future__ import annotations
 
 import json
 import random
+import zlib
 from datetime import datetime
 from io import StringIO
 from pathlib import Path
@@ -33,7 +34,14 @@ RULE = (
     "nothing to take out - a type without instances of itself or of a type derived from it, the free-text type on a container that holds only its "
     "placeholder); whatever the calls, the file then holds placeholder + D, so the observed round trip, the == "
     "operator and len() (len of the written file's data = 1 + |D|, len of the re-read data = number of re-read "
-    "elements) must be exactly those of D appended in order."
+    "elements) must be exactly those of D appended in order. "
+    "Foreign text read earlier (three cases in ten, choices drawn from a generator of their own seeded by the case): "
+    "some date fields declare further notations after the one they write with (coarser ones, other orders of the "
+    "parts, all of the modelled directives), and before the observed round trip the same file class has read - and, "
+    "in half of these cases, written back - text that it did not write itself: lines of its own register types whose "
+    "values are in any of the declared notations of their fields, in other alignments, with blank fields; nothing of "
+    "that is observed, and the observed round trip must be exactly what the model computes for D under the declared "
+    "lists of notations, without any history."
 )
 ASSUMPTIONS = c04.ASSUMPTIONS + [
     "canonical data = values equal to what their own rendering reads back to (decided with the model's renderer/parser, which is itself compared with the code on every case)",
@@ -240,11 +248,22 @@ def warm_up(RF, f, case, h):
         RF.set_version(h["select"])  # the version the observed round trip runs under: the case's register list
 
 
+def read_foreign(RF, case, lg):
+    """the file class reads (and may write back) text it did not write itself; nothing of it is observed"""
+    io = case.get("io")
+    for t in lg["texts"]:
+        g = fsup.read_text(RF, codec.dec_str(t), io, *c04.text_linesize(case))
+        if lg.get("write_back"):
+            fsup.write_text(g, io)
+
+
 def run_impl(case):
     try:
         RF, classes, f = build_file(case)
         if case.get("history"):
             warm_up(RF, f, case, case["history"])
+        if case.get("legacy"):
+            read_foreign(RF, case, case["legacy"])
         w = fsup.write_text(f, case.get("io"))
         if case.get("shape") == "skip_empty":
             return {"written": codec.enc_str(w), "len_written": len(f.data)}
@@ -275,7 +294,7 @@ def judge(case, obs, resp):
         return {"status": "skip", "why": "outside the domain (ambiguous identifiers / non-canonical data)"}
     if not resp["model_holds"]:
         return {"status": "error", "why": f"the MODEL's cycle violates Spec.C05.holds: {show(resp.get('model'))}"}
-    hist = show_history(case) + show_assembly(case)
+    hist = show_history(case) + show_legacy(case) + show_assembly(case)
     if "exc" in obs:
         return {"status": "oracle", "why": f"write/read raised {obs['exc']}: {obs.get('msg')}{hist}"}
     if not resp["holds"]:
@@ -302,6 +321,15 @@ def show_history(case):
             f"before this round trip it read text under version(s) {[k[v] for v in h['visits']]}, then set_version({h['select']!r}) selected {k['final']!r}]")
 
 
+def show_legacy(case):
+    lg = case.get("legacy")
+    if not lg:
+        return ""
+    lists = sorted({str([codec.dec_str(x) for x in fd["fmts"]]) for rd in case["regs"] for fd in rd["fields"] if fd["k"] == "date" and len(fd["fmts"]) > 1})
+    return (f" [foreign text: before this round trip the same file class read{' and wrote back' if lg.get('write_back') else ''} "
+            f"{[codec.dec_str(t) for t in lg['texts']]}; date fields with several notations: {', '.join(lists) or 'none'}]")
+
+
 def show(o):
     if isinstance(o, list):
         return repr(codec.dec_str(o))
@@ -326,6 +354,9 @@ def features(case, obs):
         if any("cls" in e and e["cls"] not in kept for e in case["elems"]):
             f.append("history_data_of_a_type_the_earlier_version_lacks")
     f.append("assembly=" + ("edited" if case.get("assembly") else "appended"))
+    f.append("foreign_text=" + ("none" if not case.get("legacy") else "read_and_written_back" if case["legacy"].get("write_back") else "read"))
+    if case.get("legacy") and any(fd["k"] == "date" and len(fd["fmts"]) > 1 for rd in case["regs"] for fd in rd["fields"]):
+        f.append("foreign_text_with_several_date_notations")
     if case.get("assembly"):
         for st in assembly_steps(case):
             if st["op"] == "rm_type" and not st["finds"]:
@@ -520,6 +551,67 @@ def random_case(rng, with_empty=False, history=False, assembly=False):
     return case
 
 
+# further notations a date field may accept on reading, by the notation it writes with (none is longer than it)
+MORE_NOTATIONS = {
+    "%Y/%m/%d": ["%Y/%m", "%d/%m/%Y", "%Y%m%d", "%d/%m/%y", "%Y"],
+    "%d%m%y": ["%m/%y", "%Y", "%m%Y", "%y"],
+    "%Y-%m-%d %H:%M": ["%Y-%m-%d", "%Y-%m-%d %H", "%d/%m/%Y %H:%M", "%Y%m%d%H%M%S", "%Y-%m"],
+    "%d/%m/%Y": ["%m/%Y", "%Y-%m-%d", "%d/%m/%y", "%Y"],
+}
+
+
+def foreign_line(xr, rd):
+    """one line of a register type as another program may have produced it: values in any of the declared
+    notations of their fields, aligned either way, some fields blank"""
+    ident = codec.dec_str(rd["ident"])
+    width = max([rd["digits"]] + [fd["start"] + fd["size"] for fd in rd["fields"]])
+    buf = [" "] * width
+    buf[: len(ident)] = ident
+    for fd in rd["fields"]:
+        k, size = fd["k"], fd["size"]
+        if xr.random() < 0.15:
+            continue
+        if k == "int":
+            txt = str(xr.randrange(0, 10 ** xr.randrange(1, min(size, 6) + 1)))
+        elif k == "lit":
+            txt = "".join(xr.choice("abcXYZ09-_.") for _ in range(xr.randrange(1, size + 1)))
+        elif k == "flt":
+            txt = ("%.*f" % (fd["dec"], xr.uniform(0, 9))).replace(".", codec.dec_str(fd["sep"]))
+        else:
+            fmts = [codec.dec_str(x) for x in fd["fmts"]]
+            fmt = xr.choice(fmts[1:]) if len(fmts) > 1 and xr.random() < 0.8 else fmts[0]
+            t = datetime(xr.randrange(1970, 2068), xr.randrange(1, 13), xr.randrange(1, 29), xr.randrange(24), xr.randrange(60), xr.randrange(60))
+            txt = t.strftime(fmt)
+        txt = txt[:size]
+        txt = txt.ljust(size) if xr.random() < 0.5 else txt.rjust(size)
+        buf[fd["start"] : fd["start"] + size] = txt
+    return "".join(buf).rstrip() + "\n"
+
+
+def add_foreign_text(case):
+    """the 'foreign text read earlier' dimension (see RULE); every choice comes from a generator seeded by the
+    case, so the cases without it are the ones generated before the dimension existed"""
+    xr = random.Random(zlib.crc32(json.dumps(case, sort_keys=True).encode()))
+    if xr.random() >= 0.3:
+        return case
+    regs = []
+    for rd in case["regs"]:
+        fields = []
+        for fd in rd["fields"]:
+            if fd["k"] == "date" and len(fd["fmts"]) == 1 and xr.random() < 0.6:
+                more = [m for m in MORE_NOTATIONS.get(codec.dec_str(fd["fmts"][0]), []) if len(datetime(2000, 10, 10, 10, 10, 10).strftime(m)) <= fd["size"]]
+                fd = {**fd, "fmts": fd["fmts"] + [codec.enc_str(m) for m in xr.sample(more, min(len(more), xr.choice([1, 1, 2])))]}
+            fields.append(fd)
+        regs.append({**rd, "fields": fields})
+    texts = []
+    for _ in range(xr.choice([1, 1, 2])):
+        lines = [foreign_line(xr, xr.choice(regs)) for _ in range(xr.randrange(1, 5))]
+        if xr.random() < 0.3:
+            lines.insert(xr.randrange(len(lines) + 1), "& text of another origin\n")
+        texts.append(codec.enc_str("".join(lines)))
+    return {**case, "regs": regs, "legacy": {"texts": texts, "write_back": xr.random() < 0.5}}
+
+
 def corpus_cases():
     d = Path(__file__).resolve().parent.parent.parent / "corpus" / PROP
     out = []
@@ -545,13 +637,24 @@ def cases_of(chunk):
     else:
         rng = random.Random(chunk["seed"])
         for _ in range(chunk["n"]):
-            yield random_case(rng, chunk["empty"], history=True, assembly=True)
+            yield add_foreign_text(random_case(rng, chunk["empty"], history=True, assembly=True))
 
 
 def shrinks(case):
     es = case["elems"]
     if case.get("assembly"):
         yield {k: v for k, v in case.items() if k != "assembly"}
+    if case.get("legacy"):
+        yield {k: v for k, v in case.items() if k != "legacy"}
+        lg = case["legacy"]
+        if lg.get("write_back"):
+            yield {**case, "legacy": {**lg, "write_back": False}}
+        for i in range(len(lg["texts"]) if len(lg["texts"]) > 1 else 0):
+            yield {**case, "legacy": {**lg, "texts": lg["texts"][:i] + lg["texts"][i + 1 :]}}
+        for i, t in enumerate(lg["texts"]):
+            ls = codec.dec_str(t).splitlines(True)
+            for j in range(len(ls) if len(ls) > 1 else 0):
+                yield {**case, "legacy": {**lg, "texts": lg["texts"][:i] + [codec.enc_str("".join(ls[:j] + ls[j + 1 :]))] + lg["texts"][i + 1 :]}}
     if case.get("history"):
         yield {k: v for k, v in case.items() if k != "history"}
         h = case["history"]
